@@ -135,7 +135,7 @@ def validate(lines, invs):
     return None
 
 
-def run(pid, tier, spec, replay_file=None):
+def run(pid, tier, spec, replay_file=None, extra=None):
     t0 = time.time()
     res = {'mc': [], 'states': 0, 'transitions': 0, 'generated': {}}
     harness = build_harness()
@@ -248,5 +248,9 @@ def run(pid, tier, spec, replay_file=None):
                        'code by a controlled scheduler with the abstract state compared after every step; TLC evaluates '
                        'the property predicates of Obs.tla on the events recorded from the real code.',
     }
-    write_evidence(pid, tier, 'model_checking', coverage, time.time() - t0, len(violations), spec.get('assumptions', []))
-    return 1 if violations else 0
+    nviol = len(violations)
+    if extra:
+        coverage.update(extra.get('coverage', {}))
+        nviol += extra.get('violations', 0)
+    write_evidence(pid, tier, 'model_checking', coverage, time.time() - t0, nviol, spec.get('assumptions', []))
+    return 1 if nviol else 0
